@@ -16,6 +16,11 @@
   then on SP / HTAB) rather than as the C pointer loop; the correspondence check `h_deflate`
   (op `ae`, exhaustive over short strings on the metacharacter alphabet) ties it to the C.
 
+  Vary: every response that passes the gates not depending on Accept-Encoding gets
+  Vary: Accept-Encoding, the identity variant included (RFC 9110 12.5.5).  The pinned tree
+  tested Accept-Encoding first and left the identity variant without Vary; the C19 check
+  reports that and the model describes the repaired order (seeded/C19-fixes).
+
   Weights: the scanner honours "q=0" (RFC 9110 12.4.2: weight 0 = not acceptable).  The
   pinned tree ignored all parameters (so `gzip;q=0, deflate` was answered with gzip); the C19
   check reported that (known_findings D26) and /repo commit 2a3a422 repaired the loop exactly
@@ -90,14 +95,15 @@ def q0End : Bytes → Bool
   | [] => true
   | c :: _ => c = sp || c = ht
 
+/-- after "q=0": optional "." and zeros, then the end of the weight -/
+def q0Rest : Bytes → Bool
+  | [] => true
+  | d :: r => if d = dot then q0End (r.dropWhile (· = 48)) else q0End (d :: r)
+
 /-- parameter text (between ';' and the next ';' / ',' / end) is a zero weight -/
 def paramIsQ0 (p : Bytes) : Bool :=
   match p.dropWhile (fun b => b = sp || b = ht) with
-  | q :: e :: z :: rest =>
-    (q = 113 || q = 81) && e = 61 && z = 48 &&
-      (match rest with
-       | [] => true
-       | d :: r => if d = dot then q0End (r.dropWhile (· = 48)) else q0End rest)
+  | q :: e :: z :: rest => (q = 113 || q = 81) && e = 61 && z = 48 && q0Rest rest
   | _ => false
 
 /-- whitespace (SP / HTAB) separated tokens before the first ';' are all listed; the weight
@@ -259,21 +265,26 @@ def cacheControlOk : Option Bytes → Bool
   | none => true
   | some v => !containsToken v tokPrivate && !containsToken v tokNoStore
 
-/-- the gates in front of the header adjustments: which coding (if any) this response gets.
-    Does not look at If-None-Match. -/
-def selectCoding (cfg : Cfg) (rq : Rq) (rs : Rs) : Option Coding :=
-  if !rs.finished || rq.method = .head || rs.hasTE || rs.hasCE then none
-  else if rs.status < 200 || rs.status = 204 || rs.status = 205 || rs.status = 304 then none
-  else if cfg.mimetypes.isEmpty then none
-  else if rs.len ≤ cfg.minSize then none
-  else if cfg.maxSizeKB ≠ 0 && rs.len > cfg.maxSizeKB * 1024 then none
-  else
+/-- the response is one that mod_deflate would code for a suitable Accept-Encoding: every gate
+    that does not look at the request's Accept-Encoding (method, state, status, existing
+    Transfer-Encoding or Content-Encoding, deflate.mimetypes, min/max-compress-size) -/
+def eligible (cfg : Cfg) (rq : Rq) (rs : Rs) : Bool :=
+  if !rs.finished || rq.method = .head || rs.hasTE || rs.hasCE then false
+  else if rs.status < 200 || rs.status = 204 || rs.status = 205 || rs.status = 304 then false
+  else if cfg.mimetypes.isEmpty then false
+  else if rs.len ≤ cfg.minSize then false
+  else if cfg.maxSizeKB ≠ 0 && rs.len > cfg.maxSizeKB * 1024 then false
+  else mimeOk cfg.mimetypes rs.contentType
+
+/-- negotiation proper: Accept-Encoding of the request against deflate.allowed-encodings -/
+def negotiate (cfg : Cfg) (rq : Rq) : Option Coding :=
   match rq.acceptEncoding with
   | none => none
-  | some ae =>
-    match chooseEncoding cfg.allowed ae with
-    | none => none
-    | some c => if mimeOk cfg.mimetypes rs.contentType then some c else none
+  | some ae => chooseEncoding cfg.allowed ae
+
+/-- which coding (if any) this response gets.  Does not look at If-None-Match. -/
+def selectCoding (cfg : Cfg) (rq : Rq) (rs : Rs) : Option Coding :=
+  if eligible cfg rq rs then negotiate cfg rq else none
 
 /-- If-None-Match carries the coded entity tag (2xx only) -/
 def inmHit (rq : Rq) (rs : Rs) (c : Coding) : Bool :=
@@ -288,11 +299,16 @@ def cacheEligible (cfg : Cfg) (rs : Rs) : Bool :=
   cfg.cacheDir && rs.vary.isNone && decide ((rs.etag.getD []).length > 2) && rs.wholeFile
     && rs.status ≠ 206 && cacheControlOk rs.cacheControl
 
+/-- mod_deflate_handle_response_start().  Order of the C (after the repair that moved the
+    Accept-Encoding tests behind the Vary adjustment): gates, Vary, negotiation, If-None-Match,
+    ETag / Content-Encoding / Content-Length, cache. -/
 def respStart (cfg : Cfg) (rq : Rq) (rs : Rs) : RsOut :=
-  match selectCoding cfg rq rs with
-  | none => ⟨.pass, rs.status, rs.etag, rs.vary, none, rs.hasCL⟩
+  if !eligible cfg rq rs then ⟨.pass, rs.status, rs.etag, rs.vary, none, rs.hasCL⟩
+  else
+  let vary' := varyAdjust rs.vary
+  match negotiate cfg rq with
+  | none => ⟨.pass, rs.status, rs.etag, some vary', none, rs.hasCL⟩     -- identity variant
   | some c =>
-    let vary' := varyAdjust rs.vary
     let etag := rs.etag.getD []
     if inmHit rq rs c then
       if rq.method = .other then
@@ -348,6 +364,12 @@ inductive Name where
   | final (k : Key)
   | tmp (k : Key) (pid : Pid)
 deriving DecidableEq, Repr
+
+/-- the file name of an object of the abstract cache directory: validator = the number in the
+    entity tag (http_etag_create: decimal 32-bit hash), path through a table of physical paths -/
+def nameBytes (dir : Bytes) (pathOf : Nat → Bytes) : Name → Bytes
+  | .final k => cacheFileName dir (pathOf k.path) (staticEtag (decDigits k.validator) k.coding)
+  | .tmp k pid => tmpFileName (cacheFileName dir (pathOf k.path) (staticEtag (decDigits k.validator) k.coding)) pid
 
 /-- the cache directory -/
 abbrev FS := List (Name × Bytes)
@@ -415,8 +437,21 @@ deriving DecidableEq, Repr
 structure St where
   src : Nat → Option (Nat × Bytes) := fun _ => none    -- path ↦ (validator, content)
   fs : FS := []
+  /-- stat cache of the running server process for PUBLISHED cache files: name ↦ content of the
+      descriptor it holds.  Entries are trusted without a stat() until the next `tick` (one
+      second, server.stat-cache-engine "simple"), so a file evicted meanwhile is still served
+      from the open descriptor. -/
+  sc : FS := []
+  scPid : Pid := 0                                     -- the process `sc` belongs to
 
-def doRequest (compress : Coding → Bytes → Bytes) (st : St) (p : Nat) (c : Coding) (pid : Pid)
+/-- process `pid` handles the next request: another process starts with an empty stat cache -/
+def St.enter (st : St) (pid : Pid) : St :=
+  if st.scPid = pid then st else { st with sc := [], scPid := pid }
+
+/-- the process died: its stat cache is gone -/
+def St.died (st : St) : St := { st with sc := [] }
+
+def serve (compress : Coding → Bytes → Bytes) (st : St) (p : Nat) (c : Coding) (pid : Pid)
     (plan : Plan) : St × Obs :=
   match st.src p with
   | none => (st, .quiet)
@@ -425,8 +460,13 @@ def doRequest (compress : Coding → Bytes → Bytes) (st : St) (p : Nat) (c : C
     let F := compress c content
     if !plan.cacheable then (st, .served F false)
     else
+    match fsGet st.sc (.final k) with
+    | some b => (st, .served b true)          -- stat_cache_get_entry_open(): fresh entry, no stat()
+    | none =>
     match fsGet st.fs (.final k) with
-    | some b => if b.isEmpty then (st, .error) else (st, .served b true)
+    | some b =>
+      if b.isEmpty then (st, .error)
+      else ({ st with sc := fsSet st.sc (.final k) b }, .served b true)
     | none =>
       if !plan.openOk then (st, .served F false)
       else
@@ -434,26 +474,32 @@ def doRequest (compress : Coding → Bytes → Bytes) (st : St) (p : Nat) (c : C
         let old := (fsGet st.fs t).getD []
         match writeLoop F old 0 plan.writes with
         | .failed _ => ({ st with fs := fsDel st.fs t }, .error)
-        | .crashed cur => ({ st with fs := fsSet st.fs t cur }, .crashed)
+        | .crashed cur => ({ st with fs := fsSet st.fs t cur }.died, .crashed)
         | .done cur =>
           match plan.rename with
           | .ok => ({ st with fs := fsSet (fsDel st.fs t) (.final k) cur },
                     .served (cur.take F.length) false)
           | .fail => ({ st with fs := fsDel st.fs t }, .error)
-          | .crashBefore => ({ st with fs := fsSet st.fs t cur }, .crashed)
-          | .crashAfter => ({ st with fs := fsSet (fsDel st.fs t) (.final k) cur }, .crashed)
+          | .crashBefore => ({ st with fs := fsSet st.fs t cur }.died, .crashed)
+          | .crashAfter => ({ st with fs := fsSet (fsDel st.fs t) (.final k) cur }.died, .crashed)
+
+def doRequest (compress : Coding → Bytes → Bytes) (st : St) (p : Nat) (c : Coding) (pid : Pid)
+    (plan : Plan) : St × Obs :=
+  serve compress (st.enter pid) p c pid plan
 
 inductive Op where
-  | modify (path : Nat) (validator : Nat) (content : Bytes)   -- the source file changes
+  | modify (path : Nat) (validator : Nat) (content : Bytes)   -- the source file changes (≥ 1 s after the last request)
   | request (path : Nat) (c : Coding) (pid : Pid) (plan : Plan)
   | evict (n : Name)                                          -- external cache cleanup
+  | tick                                                      -- a second passes: stat cache entries are re-validated
 deriving DecidableEq, Repr
 
 def step (compress : Coding → Bytes → Bytes) (st : St) : Op → St × Obs
   | .modify p v content =>
-    ({ st with src := fun q => if q = p then some (v, content) else st.src q }, .quiet)
+    ({ st with src := fun q => if q = p then some (v, content) else st.src q, sc := [] }, .quiet)
   | .request p c pid plan => doRequest compress st p c pid plan
   | .evict n => ({ st with fs := fsDel st.fs n }, .quiet)
+  | .tick => ({ st with sc := [] }, .quiet)
 
 /-- trace of a history: state before each operation, the operation, its observation -/
 def run (compress : Coding → Bytes → Bytes) : St → List Op → List (St × Op × Obs)
